@@ -185,6 +185,14 @@ type Server struct {
 	// serverLock protects Server.
 	serverLock sync.RWMutex
 
+	// accessLock protects access.  It is a leaf lock: nothing else is locked
+	// while it is held.  A separate lock is used instead of serverLock, because
+	// [Server.IsBlockedClient] is also reached from code that already holds
+	// serverLock for reading, such as the client lookups of the query log
+	// made while a request is being logged, and a recursive read lock
+	// deadlocks as soon as a writer is waiting.
+	accessLock sync.RWMutex
+
 	// protectionUpdateInProgress is used to make sure that only one goroutine
 	// updating the protection configuration after a pause is running at a time.
 	protectionUpdateInProgress atomic.Bool
@@ -508,7 +516,7 @@ func (s *Server) Prepare(conf *ServerConfig) (err error) {
 
 	s.setupDNS64()
 
-	s.access, err = newAccessCtx(
+	access, err := newAccessCtx(
 		s.conf.AllowedClients,
 		s.conf.DisallowedClients,
 		s.conf.BlockedHosts,
@@ -516,6 +524,8 @@ func (s *Server) Prepare(conf *ServerConfig) (err error) {
 	if err != nil {
 		return fmt.Errorf("preparing access: %w", err)
 	}
+
+	s.setAccess(access)
 
 	proxyConfig.Fallbacks, err = s.setupFallbackDNS()
 	if err != nil {
@@ -889,19 +899,34 @@ func (s *Server) ServeHTTP(w http.ResponseWriter, r *http.Request) {
 	}
 }
 
+// currentAccess returns the current access manager.
+func (s *Server) currentAccess() (a *accessManager) {
+	s.accessLock.RLock()
+	defer s.accessLock.RUnlock()
+
+	return s.access
+}
+
+// setAccess sets the current access manager.
+func (s *Server) setAccess(a *accessManager) {
+	s.accessLock.Lock()
+	defer s.accessLock.Unlock()
+
+	s.access = a
+}
+
 // IsBlockedClient returns true if the client is blocked by the current access
 // settings.
 func (s *Server) IsBlockedClient(ip netip.Addr, clientID string) (blocked bool, rule string) {
-	s.serverLock.RLock()
-	defer s.serverLock.RUnlock()
+	access := s.currentAccess()
 
 	blockedByIP := false
 	if ip != (netip.Addr{}) {
-		blockedByIP, rule = s.access.isBlockedIP(ip)
+		blockedByIP, rule = access.isBlockedIP(ip)
 	}
 
-	allowlistMode := s.access.allowlistMode()
-	blockedByClientID := s.access.isBlockedClientID(clientID)
+	allowlistMode := access.allowlistMode()
+	blockedByClientID := access.isBlockedClientID(clientID)
 
 	// Allow if at least one of the checks allows in allowlist mode, but block
 	// if at least one of the checks blocks in blocklist mode.
